@@ -89,7 +89,9 @@ func (root *Root) ResolveExecutable(
 			if vars != nil {
 				if v := vars[vd.Name]; v != nil {
 					if ic, _ := vd.Type.(InCoercer); ic != nil { // validated in SDL validation
-						v, err = ic.CoerceIn(v)
+						// Lists and input objects are coerced in place, the
+						// values given are the caller's.
+						v, err = ic.CoerceIn(copyValue(v))
 					}
 					if err != nil {
 						var gerr *Error
